@@ -330,8 +330,8 @@ func runShard(idx, n int, b bounds, budget *engine.Budget) *shardResult {
 	total := numEnumerated(b.CoreLen)
 	fullBelow := numEnumerated(b.FullLen) // indices below this are strings of length <= FullLen
 	buf := make([]byte, 0, 16)
-	for i := idx; i < total; i += n {
-		if i&0xff == 0 && budget.Exceeded() {
+	for i, iter := idx, 0; i < total; i, iter = i+n, iter+1 {
+		if iter&0x3f == 0 && budget.Exceeded() {
 			w.res.Skipped += (total - i + n - 1) / n
 			break
 		}
@@ -443,6 +443,9 @@ func run(tier string) int {
 	deadline := 150 * time.Second
 	if tier == "thorough" {
 		deadline = 21 * time.Minute
+	}
+	if s := envInt("VERIF_C19_BUDGET_S", 0); s > 0 { // for testing the deadline path
+		deadline = time.Duration(s) * time.Second
 	}
 	if idx, n, isWorker := engine.WorkerShard(); isWorker {
 		res := runShard(idx, n, bnd, engine.NewBudget(deadline))
